@@ -70,12 +70,21 @@ func cmdRun(args []string) int {
 			fmt.Println("   abstracted:", n)
 		}
 		sort.SliceStable(r.obls, func(i, j int) bool { return r.obls[i].Name < r.obls[j].Name })
+		anyRet := false
+		for _, o := range r.obls {
+			if o.Kind == "canary" && o.Label == "return" && o.Result != nil && o.Result.Status != "unsat" {
+				anyRet = true
+			}
+		}
 		for _, o := range r.obls {
 			st := "?"
 			if o.Result != nil {
 				st = o.Result.Status
 			}
 			okay := st == o.Expect || (o.Expect == "sat" && st != "unsat" && st != "error")
+			if o.Kind == "canary" && o.Label == "return" && anyRet {
+				okay = true
+			}
 			mark := "ok "
 			if !okay {
 				mark = "BAD"
